@@ -77,8 +77,10 @@ def rich_collector(rng, cid):
         fams.append(fam_with_unit(cid * 100 + j * 10, rng.choice(base.ALPHABET), rng.choice(base.TYPES),
                                   rng.choice(UNITS), extra, empty=rng.random() < 0.2))
     r = rng.random()
-    if r < 0.82:
+    if r < 0.78:
         d = [[f['name'], f['type']] for f in fams]
+    elif r < 0.84:
+        d = []          # describe() returns no family: claims nothing, so the restricted registry must NOT find it by name
     elif r < 0.94:
         d = None
     else:
@@ -163,6 +165,12 @@ FIXED = [
 
 
 KEPT_CORPUS = [
+    # describe() -> []: claims nothing (auto_describe on or off), so a restricted registry never selects it — the class of the
+    # known finding C07:undescribed-collector-not-restrictable — and it never blocks the collector that does claim x
+    {'ad': True, 'ti': None, 'collectors': [
+        {'id': 1, 'kind': 'custom', 'describe': [], 'families': [fam_with_unit(100, 'x', 'counter', '')]},
+        {'id': 2, 'kind': 'custom', 'describe': [['x', 'counter']], 'families': [fam_with_unit(200, 'x', 'counter', '')]}],
+     'ops': [['r', 1], ['r', 2], ['u', 2], ['r', 2]], 'watch': [[1, ['x_total']]], 'namesets': [['x_total'], ['x']]},
     # a collector whose families change while it is registered (a family per attached device); once unregistered NOTHING of
     # it may be served or called, not even through a name only its registration-time description had
     {'ad': True, 'ti': None, 'collectors': [
